@@ -187,15 +187,25 @@ func ruleWALRecordLayoutAgreement(c *Ctx) {
 	if ser == nil || par == nil {
 		return
 	}
-	firstLoop := func(s *Scope) *ast.ForStmt {
-		var l *ast.ForStmt
+	// the per-command loop, in either loop form
+	type loopT struct {
+		Body *ast.BlockStmt
+		pos  token.Pos
+	}
+	firstLoop := func(s *Scope) *loopT {
+		var l *loopT
 		s.walk(func(n ast.Node) bool {
-			if fs, ok := n.(*ast.ForStmt); ok && l == nil {
-				l = fs
+			if l != nil {
+				return false
+			}
+			switch fs := n.(type) {
+			case *ast.ForStmt:
+				l = &loopT{fs.Body, fs.Pos()}
+			case *ast.RangeStmt:
+				l = &loopT{fs.Body, fs.Pos()}
 			}
 			return l == nil
 		})
-
 		return l
 	}
 	sl, pl := firstLoop(ser), firstLoop(par)
@@ -217,12 +227,12 @@ func ruleWALRecordLayoutAgreement(c *Ctx) {
 	}
 	sseq := serializerSeq(ser, sl.Body).norm()
 	pseq := parserSeq(par, pl.Body, cursor).norm()
-	c.Check(sseq.String() == pseq.String() && len(sseq) >= 4, rule, par.Name, "per-command-field-widths", c.P.Pos(pl.Pos()),
+	c.Check(sseq.String() == pseq.String() && len(sseq) >= 4, rule, par.Name, "per-command-field-widths", c.P.Pos(pl.pos),
 		"serializeTG emits per command "+sseq.String()+"; ParseTGData consumes "+pseq.String()+" (fixed byte runs / variable parts, in order)")
 	// header: tgID + count
 	var hdrSer wseq
 	ser.walk(func(n ast.Node) bool {
-		if call, ok := n.(*ast.CallExpr); ok && call.Pos() < sl.Pos() && CalleeName(ser.Info, call) == "utils/io.Serialize" && len(call.Args) == 2 {
+		if call, ok := n.(*ast.CallExpr); ok && call.Pos() < sl.pos && CalleeName(ser.Info, call) == "utils/io.Serialize" && len(call.Args) == 2 {
 			hdrSer = append(hdrSer, fixedWidth(ser.Pkg.TypesSizes, ser.Info.TypeOf(call.Args[1])))
 		}
 		return true
